@@ -2,6 +2,7 @@ package intr
 
 import (
 	"context"
+	"errors"
 	"fmt"
 	"strconv"
 	"sync"
@@ -17,6 +18,7 @@ type St struct {
 	Mods  int                       // number of state-modifier applications
 	Touch map[string]int            // node key -> completed executions of a node of a stateless nested graph
 	//                                 that shares this state (not part of the canonical state: oracle only)
+	SavedS map[string]string        // node key -> last stamped input of an atom node (string input)
 }
 
 func init() {
@@ -36,6 +38,9 @@ func stCanon(s *St) *Val {
 	for k, v := range s.Saved {
 		saved[k] = v
 	}
+	for k, v := range s.SavedS {
+		saved[k] = v
+	}
 	return canon(map[string]any{"mods": strconv.Itoa(s.Mods), "saved": saved, "seen": seen})
 }
 
@@ -49,6 +54,7 @@ type Exec struct {
 	In    *Val   `json:"in"`
 	Abort bool   `json:"abort,omitempty"`
 	Touch int    `json:"touch,omitempty"` // what the node saw of the state it shares with its ancestors
+	Fault bool   `json:"fault,omitempty"` // the execution ended with the injected transient error (retry phase)
 }
 
 // Event: pre-handler (submit) / post-handler (collection) of a node in a stateful graph.
@@ -74,13 +80,28 @@ type recorder struct {
 	mods     []ModObs
 	attempts map[int]int
 	rerunOn  bool
+	failNext bool // the next lambda execution that starts fails with a transient error (retry phase)
+}
+
+var errTransient = errors.New("transient failure (injected)")
+
+// takeFault: whether the execution e that has just begun is the one that fails.
+func (r *recorder) takeFault(e *Exec) bool {
+	r.mu.Lock()
+	defer r.mu.Unlock()
+	if !r.failNext {
+		return false
+	}
+	r.failNext = false
+	e.Fault = true
+	return true
 }
 
 func newRecorder(rerunOn bool) *recorder {
 	return &recorder{attempts: map[int]int{}, rerunOn: rerunOn}
 }
 
-func (r *recorder) begin(gi, id int, path string, in map[string]any) (*Exec, int) {
+func (r *recorder) begin(gi, id int, path string, in any) (*Exec, int) {
 	r.mu.Lock()
 	defer r.mu.Unlock()
 	r.attempts[id]++
@@ -200,6 +221,51 @@ func (b *builder) preHandler(gi int, n NodeSpec) compose.StatePreHandler[map[str
 	}
 }
 
+// atomPreHandler: the same handler for a node whose input is a string (zero input = "": rebuild).
+func (b *builder) atomPreHandler(gi int, n NodeSpec) compose.StatePreHandler[string, *St] {
+	k := key(n.ID)
+	return func(ctx context.Context, in string, st *St) (string, error) {
+		b.rec.event(gi, "pre", n.ID)
+		if !n.St {
+			return in, nil
+		}
+		if in == "" {
+			return st.SavedS[k], nil
+		}
+		if st.Seen == nil {
+			st.Seen = map[string]int{}
+		}
+		if st.SavedS == nil {
+			st.SavedS = map[string]string{}
+		}
+		st.Seen[k]++
+		st.SavedS[k] = in
+		return in, nil
+	}
+}
+
+// atomLambda: a node whose input is not a map (a string); it returns {n<id>: input}.
+func (b *builder) atomLambda(gi int, n NodeSpec, path string) *compose.Lambda {
+	k := key(n.ID)
+	return compose.InvokableLambda(func(ctx context.Context, in string) (map[string]any, error) {
+		e, att := b.rec.begin(gi, n.ID, path, in)
+		if b.rec.takeFault(e) {
+			return nil, errTransient
+		}
+		if n.Delay > 0 {
+			time.Sleep(time.Duration(n.Delay) * 300 * time.Microsecond)
+		}
+		if b.rec.rerunOn && has(n.Rerun, att) {
+			b.rec.mu.Lock()
+			e.Abort = true
+			b.rec.mu.Unlock()
+			return nil, rerunErr(att)
+		}
+		b.touch(ctx, gi, k, e)
+		return map[string]any{k: in}, nil
+	})
+}
+
 func (b *builder) postHandler(gi int, n NodeSpec) compose.StatePostHandler[map[string]any, *St] {
 	return func(ctx context.Context, out map[string]any, st *St) (map[string]any, error) {
 		b.rec.event(gi, "post", n.ID)
@@ -218,6 +284,9 @@ func (b *builder) leafPostHandler(gi int, n NodeSpec) compose.StatePostHandler[s
 func (b *builder) leafLambda(gi int, n NodeSpec, path string) *compose.Lambda {
 	return compose.InvokableLambda(func(ctx context.Context, in map[string]any) (string, error) {
 		e, att := b.rec.begin(gi, n.ID, path, in)
+		if b.rec.takeFault(e) {
+			return "", errTransient
+		}
 		if n.Delay > 0 {
 			time.Sleep(time.Duration(n.Delay) * 300 * time.Microsecond)
 		}
@@ -245,9 +314,15 @@ func (b *builder) lambda(gi int, n NodeSpec, path string) *compose.Lambda {
 	if n.Leaf {
 		return b.leafLambda(gi, n, path)
 	}
+	if n.Atom {
+		return b.atomLambda(gi, n, path)
+	}
 	k := key(n.ID)
 	return compose.InvokableLambda(func(ctx context.Context, in map[string]any) (map[string]any, error) {
 		e, att := b.rec.begin(gi, n.ID, path, in)
+		if b.rec.takeFault(e) {
+			return nil, errTransient
+		}
 		if n.Delay > 0 {
 			time.Sleep(time.Duration(n.Delay) * 300 * time.Microsecond)
 		}
@@ -336,6 +411,8 @@ func (b *builder) nodeOpts(gi int, n NodeSpec) []compose.GraphAddNodeOpt {
 	if g.State {
 		if n.Leaf {
 			opts = append(opts, compose.WithStatePreHandler(b.preHandler(gi, n)), compose.WithStatePostHandler(b.leafPostHandler(gi, n)))
+		} else if n.Atom {
+			opts = append(opts, compose.WithStatePreHandler(b.atomPreHandler(gi, n)), compose.WithStatePostHandler(b.postHandler(gi, n)))
 		} else {
 			opts = append(opts, compose.WithStatePreHandler(b.preHandler(gi, n)), compose.WithStatePostHandler(b.postHandler(gi, n)))
 		}
@@ -426,7 +503,9 @@ func (b *builder) workflow(gi int, path string) (*compose.Workflow[map[string]an
 				node.AddDependency(key(e.From))
 			default:
 				var maps []*compose.FieldMapping
-				if fn := gs.node(e.From); fn != nil && fn.Leaf {
+				if tn := gs.node(to); tn != nil && tn.Atom {
+					maps = nil // string -> string, unmapped
+				} else if fn := gs.node(e.From); fn != nil && fn.Leaf {
 					maps = []*compose.FieldMapping{compose.ToField(key(e.From))}
 				} else if nData > 1 {
 					if e.From == StartID {
